@@ -6,6 +6,7 @@ import Keto.Model.Engine
 import Keto.Spec.Membership
 import Keto.Spec.Positive
 import Keto.Proofs.FactsTie
+import Keto.Proofs.EngineSound
 
 namespace Keto
 
@@ -15,5 +16,47 @@ namespace Keto
 theorem C01_depth_sites_tie :
     Facts.depthGuards = FactsTie.expectedDepthGuards ∧ Facts.depthCalls = FactsTie.expectedDepthCalls :=
   ⟨FactsTie.depthGuards_tie, FactsTie.depthCalls_tie⟩
+
+/-- Soundness, positive fragment: for every configuration without `!`, every store, every depth/width limits,
+    every fault oracle, every fuel: an `isMember` answer implies membership in the Zanzibar semantics. -/
+theorem C01_sound_pos (E : Env) (hc : Cfg.pos E.cfg) (g : Int) (fuel : Nat) (q : Tuple) (r : Int) :
+    (check E g fuel q r).1.memb = .isMember → Mem E.cfg E.T q :=
+  build_sound E hc fuel (.isAllowed q (effDepth r g) false) {} {} rfl {} _
+
+namespace C01ex
+
+/-- `doc.view = viewers.includes || parents.traverse(p => p.view)`, `folder.view = viewers.includes`. -/
+def cfg : Cfg := [
+  ⟨"doc", [⟨"viewers", [⟨"user", ""⟩], none⟩,
+           ⟨"parents", [⟨"folder", ""⟩], none⟩,
+           ⟨"view", [], some ⟨.or, [.computed "viewers", .ttu "parents" "view"]⟩⟩]⟩,
+  ⟨"folder", [⟨"viewers", [⟨"user", ""⟩], none⟩,
+              ⟨"view", [], some ⟨.or, [.computed "viewers"]⟩⟩]⟩]
+
+def env : Env where
+  cfg := cfg
+  strict := false
+  maxWidth := 100
+  T := [⟨"doc", 1, "parents", .set "folder" 2 ""⟩,
+        ⟨"folder", 2, "viewers", .id 7⟩,
+        ⟨"doc", 1, "viewers", .id 8⟩]
+  fails := fun _ => false
+  pageSize := 100
+
+/-- user 7 may view doc 1 through the parent folder 2. -/
+def q : Tuple := ⟨"doc", 1, "view", .id 7⟩
+
+end C01ex
+
+-- non-vacuity: the hypothesis of `C01_sound_pos` is satisfiable and its premise is met by a concrete
+-- check (through the tuple-to-subject-set branch of the rewrite), so the conclusion `Mem` is really derived.
+example : Cfg.pos C01ex.env.cfg ∧ (check C01ex.env 5 200 C01ex.q 0).1.memb = .isMember :=
+  ⟨Cfg.pos_of_posB (by decide), by decide⟩
+
+-- … and the model does not answer `isMember` for everybody (user 9 has no path to doc 1).
+example : (check C01ex.env 5 200 ⟨"doc", 1, "view", .id 9⟩ 0).1 = Res.nm := by decide
+
+example : Mem C01ex.env.cfg C01ex.env.T C01ex.q :=
+  C01_sound_pos C01ex.env (Cfg.pos_of_posB (by decide)) 5 200 C01ex.q 0 (by decide)
 
 end Keto
